@@ -130,14 +130,15 @@ theorem inv0_attrNone {cfg : CCfg} {s : St} (hI : Inv0 cfg s) :
   ⟨hI.createdLe, fun _ h => by simp at h, hI.ents, hI.thr⟩
 
 /-- the state right after `proc._cache = {}` -/
-def actSt (s : St) : St :=
+def actSt (s : St) (tid : Nat) : St :=
   { s with attr := some s.nextId, nextId := s.nextId + 1,
            created := fun d => if d = s.nextId then s.now else s.created d,
-           ents := fun d => if d = s.nextId then (fun _ => none) else s.ents d }
+           ents := fun d => if d = s.nextId then (fun _ => none) else s.ents d,
+           creator := fun d => if d = s.nextId then tid else s.creator d }
 
 /-- `cache_activate`: a fresh, empty dict becomes the attribute -/
-theorem inv0_act {cfg : CCfg} {s : St} (hI : Inv0 cfg s) : Inv0 cfg (actSt s) := by
-  have hext : Ext s.view (actSt s).view := by
+theorem inv0_act {cfg : CCfg} {s : St} (tid : Nat) (hI : Inv0 cfg s) : Inv0 cfg (actSt s tid) := by
+  have hext : Ext s.view (actSt s tid).view := by
     refine ⟨rfl, rfl, Nat.le_succ _, ?_⟩
     intro d hd
     show (if d = s.nextId then s.now else s.created d) = s.created d
@@ -211,7 +212,7 @@ theorem tstep_inv0 {cfg : CCfg} {s s1 : St} (tid : Nat) (c : Choice) (hI : Inv0 
     · simp only [Option.some.injEq] at h; subst h; exact inv0_setPc tid _ hI trivial
   · -- act (k+1)
     simp only [Option.some.injEq] at h; subst h
-    exact inv0_setPc (s := actSt s) tid _ (inv0_act hI) trivial
+    exact inv0_setPc (s := actSt s tid) tid _ (inv0_act tid hI) trivial
   · -- act 0
     simp only [Option.some.injEq] at h; subst h; exact inv0_setThr tid _ hI trivial
   · -- deact (k+1)
@@ -234,12 +235,17 @@ theorem tstep_inv0 {cfg : CCfg} {s s1 : St} (tid : Nat) (c : Choice) (hI : Inv0 
     simp only [TInv, St.view] at hT
     split at h
     · rename_i d hd
-      simp only [Option.some.injEq] at h; subst h
-      refine inv0_setPc tid _ hI ?_
-      have hlt := hI.attrLt d hd
-      have hc := hI.createdLe d hlt
-      simp only [TInv, St.view]
-      exact ⟨hT, Nat.le_refl _, hlt, hc⟩
+      split at h
+      · simp only [Option.some.injEq] at h; subst h
+        refine inv0_setPc tid _ hI ?_
+        simp only [TInv, St.view]
+        exact ⟨hT, fun d t0 hh => by simp at hh⟩
+      · simp only [Option.some.injEq] at h; subst h
+        refine inv0_setPc tid _ hI ?_
+        have hlt := hI.attrLt d hd
+        have hc := hI.createdLe d hlt
+        simp only [TInv, St.view]
+        exact ⟨hT, Nat.le_refl _, hlt, hc⟩
     · simp only [Option.some.injEq] at h; subst h
       refine inv0_setPc tid _ hI ?_
       simp only [TInv, St.view]
